@@ -42,13 +42,13 @@ PLAN = {
                           ("panos", "P8", None), ("asa", "F4", None), ("asa", "F2S", 8000), ("ios", "F4", None), ("linux", "R1", None)]),
     "C02": dict(mode="conv", tags={"EQUIV", "FIXPOINT"},
                 quick=[("ios", "F1L", 4000), ("ios", "F1", 5000), ("ios", "F8", 5000), ("ios", "F3", 3000),
-                       ("ios", "F4", 2500), ("ios", "F7", 2000), ("ios", "V1L", 3000), ("ios", "V2", 600)],
+                       ("ios", "F4", 2500), ("ios", "F7", 2000), ("ios", "V1L", 3000), ("ios", "V2", 600), ("ios", "S1", None)],
                 thorough=[("ios", "F1L", None), ("ios", "F1", None), ("ios", "F8", 60000), ("ios", "F3", None),
-                          ("ios", "F4", None), ("ios", "F7", None), ("ios", "V1L", None), ("ios", "V2", None)]),
+                          ("ios", "F4", None), ("ios", "F7", None), ("ios", "V1L", None), ("ios", "V2", None), ("ios", "S1", None)]),
     "C01": dict(mode="conv", tags={"EQUIV", "FIXPOINT"},
-                quick=[("asa", "F1L", 3000), ("asa", "F1", 4000), ("asa", "F2", 6000), ("asa", "F2S", 3000), ("asa", "F3", 2000),
+                quick=[("asa", "F1L", 3000), ("asa", "F1", 4000), ("asa", "F2", 6000), ("asa", "F2S", 3000), ("asa", "S1", None), ("asa", "F3", 2000),
                        ("asa", "F4", 1500), ("asa", "F7", 2000), ("asav", "F5", 4000), ("asav", "F6L", 2400)],
-                thorough=[("asa", "F1L", None), ("asa", "F1", None), ("asa", "F2", None), ("asa", "F2S", None), ("asa", "F3", 30000),
+                thorough=[("asa", "F1L", None), ("asa", "F1", None), ("asa", "F2", None), ("asa", "F2S", None), ("asa", "S1", None), ("asa", "F3", 30000),
                           ("asa", "F4", None), ("asa", "F7", 30000), ("asav", "F5", None), ("asav", "F6L", None)]),
     "C07": dict(mode="conv", tags={"C07"},
                 quick=[("asav", "F5", 3000), ("asav", "F6L", 1800), ("asa", "F7", 6000), ("asa", "F2", 1500), ("asa", "F3", 1000), ("asa", "F4", 1000),
@@ -92,6 +92,8 @@ IOS_FAMS = {"V2": {"MaxLen": 2}, "V1L": {"MaxLen": 3}, "F1L": {"MaxLen": 5}, "F1
 LINUX_FAMS = {"I3": {"MaxLen": 2}, "R1": {"MaxLen": 3}, "I1": {"MaxLen": 2}, "I2": {"MaxLen": 2}, "M1": {"MaxLen": 3}}
 ASA_FAMS["M1"] = {"MaxLen": 3}
 ASA_FAMS["F2S"] = {"MaxLen": 2}
+ASA_FAMS["S1"] = {"MaxLen": 2}
+IOS_FAMS["S1"] = {"MaxLen": 2}
 IOS_FAMS["M1"] = {"MaxLen": 3}
 ASA_FAMS["M2L"] = {"MaxLen": 3}
 IOS_FAMS["M2L"] = {"MaxLen": 3}
